@@ -93,7 +93,7 @@ Proof.
   match type of H with (match ?R with Some _ => _ | None => _ end) = _ => destruct R as [w2|] eqn:ER end.
   2:{ injection H as <- <-. simpl. rewrite A1. exact S. }
   assert (s_dp (w_st w2) = s_dp (w_st w) /\ w_env w2 = w_env w) as [B1 B2].
-  { destruct f as [[| |]|]; try discriminate.
+  { destruct f as [[| | |ks0 m0]|]; try discriminate.
     - injection ER as <-. simpl. rewrite on_iface_dp, A1. auto.
     - destruct (lookup String.eqb (e_links (w_env w1)) name); injection ER as <-; simpl; rewrite on_iface_dp, A1; auto. }
   destruct (idx_for_name (w_st w2) name) as [idx|].
@@ -134,17 +134,19 @@ Proof.
 Qed.
 
 Lemma do_full_resync_sub : forall cfg p w b w',
+  plan_simple p = true ->
   NoDup (keys (e_routes (w_env w))) ->
   do_full_resync cfg p w = (b, w') -> Sub cfg (w_st w) (w_env w) -> Sub cfg (w_st w') (w_env w').
 Proof.
-  intros cfg p w b w' ND H S. destruct b.
+  intros cfg p w b w' PS ND H S. destruct b.
   2:{ apply full_resync_ok in H; auto. destruct H as [_ [_ [_ [X _]]]]. exact X. }
-  pose proof (do_full_resync_env _ _ _ _ _ H) as EV. unfold Sub. rewrite EV.
+  pose proof (do_full_resync_env _ _ _ _ _ PS H) as EV. unfold Sub. rewrite EV.
   unfold do_full_resync in H.
   destruct (nl_call p NLinkList w) as [f w1] eqn:E1. apply nl_call_frame in E1. destruct E1 as [A1 A2].
   destruct f.
   { injection H as <-. rewrite A1. exact S. }
   remember (refresh_all cfg (e_now (w_env w)) (e_links (w_env w1)) (w_st w1)) as s1.
+  rewrite (full_list_simple cfg p _ PS) in H.
   destruct (list_retry p NRouteListAll 5 (wst w1 s1)) as [failed w2] eqn:E2.
   apply list_retry_frame in E2. simpl in E2. destruct E2 as [B1 B2].
   destruct failed.
@@ -185,12 +187,13 @@ Qed.
 
 (* one attempt, any outcome *)
 Lemma attempt_sub : forall cfg p w b w',
+  plan_simple p = true ->
   NoDup (keys (e_routes (w_env w))) ->
   attempt cfg p w = (b, w') -> Sub cfg (w_st w) (w_env w) ->
   Sub cfg (w_st w') (w_env w') /\
   (b = false -> s_rescan (w_st w') = [] -> forall k d, desk w' k = Some d -> dpk w' k = Some d).
 Proof.
-  intros cfg p w b w' ND H S. unfold attempt in H.
+  intros cfg p w b w' PS ND H S. unfold attempt in H.
   destruct (handle p w) as [ok w1] eqn:Eh. apply handle_frame in Eh. destruct Eh as [H1 H2].
   destruct ok; simpl in H.
   2:{ injection H as <- <-. simpl. rewrite H1, H2. split; auto. discriminate. }
@@ -200,7 +203,7 @@ Proof.
     assert (NoDup (keys (e_routes (w_env w1)))) as ND1 by (rewrite H2; auto).
     destruct (s_full (w_st w1)).
     - destruct (do_full_resync cfg p w1) as [e1 w2] eqn:Ef. exists e1, w2. split; auto. split.
-      + apply do_full_resync_env in Ef. congruence.
+      + apply do_full_resync_env in Ef; [|exact PS]. congruence.
       + eapply do_full_resync_sub; eauto.
     - exists false, (resync_ifaces cfg p w1). split; auto. split.
       + rewrite resync_ifaces_env. auto.
@@ -221,18 +224,19 @@ Qed.
 
 (* Apply, any outcome *)
 Lemma apply_sub : forall cfg p s e err s' e',
+  plan_simple p = true ->
   NoDup (keys (e_routes e)) -> apply cfg p s e = (err, s', e') -> Sub cfg s e ->
   Sub cfg s' e' /\
   (err = false -> forall k d, lookup rkey_eqb (s_desired s') k = Some d -> tbl cfg e' k = Some d).
 Proof.
-  intros cfg p s e err s' e' ND H S. unfold apply in H.
+  intros cfg p s e err s' e' PS ND H S. unfold apply in H.
   set (w0 := {| w_st := s; w_env := e; w_cnt := []; w_cached := s_cached s; w_reopen := s_reopen s |}) in *.
   destruct (attempt cfg p w0) as [err0 w1] eqn:A0.
-  destruct (attempt_sub cfg p w0 err0 w1 ND A0 S) as [S1 G1].
-  pose proof (proj2 (attempt_other _ _ _ _ _ A0) ND) as ND1.
+  destruct (attempt_sub cfg p w0 err0 w1 PS ND A0 S) as [S1 G1].
+  pose proof (proj2 (attempt_other _ _ _ _ _ PS A0) ND) as ND1.
   destruct (err0 || negb (match s_rescan (w_st w1) with [] => true | _ => false end)) eqn:C.
   - destruct (attempt cfg p w1) as [err1 w2] eqn:A1.
-    destruct (attempt_sub cfg p w1 err1 w2 ND1 A1 S1) as [S2 G2].
+    destruct (attempt_sub cfg p w1 err1 w2 PS ND1 A1 S1) as [S2 G2].
     injection H as <- <- <-. split; [exact S2|].
     destruct (s_rescan (w_st w2)) eqn:R2; [|discriminate].
     intros -> k d Hd. apply S2. apply (G2 eq_refl eq_refl k d). exact Hd.
@@ -244,7 +248,7 @@ Qed.
 
 (* --- histories in which nobody else changes the kernel's routes --- *)
 Definition quiet (o : op) : bool :=
-  match o with EFlush _ | EAddRoute _ _ | EDelRoute _ => false | _ => true end.
+  match o with EFlush _ | EAddRoute _ _ | EDelRoute _ => false | OApply p => plan_simple p | _ => true end.
 
 Lemma step_sub : forall cfg o s e,
   quiet o = true -> Sub cfg s e -> NoDup (keys (e_routes e)) ->
@@ -259,8 +263,8 @@ Proof.
     destruct (lookup dkey_eqb (s_routes s) (c, name, k)); auto. rewrite recalc_dp. exact S.
   - split; auto. unfold Sub. rewrite on_iface_dp. exact S.
   - destruct (apply cfg p s e) as [[err s1] e1] eqn:A.
-    destruct (apply_sub _ _ _ _ _ _ _ ND A S) as [S1 _]. split; auto.
-    apply apply_other_tables in A. destruct A as [_ N]. auto.
+    destruct (apply_sub _ _ _ _ _ _ _ Q ND A S) as [S1 _]. split; auto.
+    apply apply_other_tables in A; [|exact Q]. destruct A as [_ N]. auto.
 Qed.
 
 Lemma quiet_history_sub : forall cfg ops s e,
@@ -278,15 +282,15 @@ Qed.
    events, link churn, clock steps, earlier Applies with any failures; any failure plan for this Apply; full resync or
    not; inline retry or not) every desired route is in the kernel, exactly. *)
 Lemma desired_present_after_any_successful_apply : forall cfg ops p s' e',
-  forallb quiet ops = true ->
+  forallb quiet ops = true -> plan_simple p = true ->
   apply cfg p (fst (run_st cfg ops (st0, env0))) (snd (run_st cfg ops (st0, env0))) = (false, s', e') ->
   forall k d, lookup rkey_eqb (s_desired s') k = Some d -> tbl cfg e' k = Some d.
 Proof.
-  intros cfg ops p s' e' Q A.
+  intros cfg ops p s' e' Q PS A.
   destruct (quiet_history_sub cfg ops st0 env0 Q) as [S ND].
   - intros k r H. discriminate.
   - simpl. constructor.
-  - destruct (apply_sub _ _ _ _ _ _ _ ND A S) as [_ G]. apply G. reflexivity.
+  - destruct (apply_sub _ _ _ _ _ _ _ PS ND A S) as [_ G]. apply G. reflexivity.
 Qed.
 
 Lemma tracker_sound : forall cfg ops,
